@@ -81,8 +81,11 @@ func runC19(c *ctx) {
 		scs = scs[:12]
 	}
 	var wg sync.WaitGroup
-	for _, sc := range scs {
+	for si, sc := range scs {
 		sc := sc
+		// in every second scenario the first (in-flight) request OFFERS an upgrade to cleartext HTTP/2 (curl --http2, some proxies): whatever the server does with the
+		// offer, the request is an accepted request like any other and is drained, not cut
+		h2cFirst := si%2 == 1
 		wg.Add(1)
 		go func() {
 			defer wg.Done()
@@ -159,6 +162,17 @@ func runC19(c *ctx) {
 							}
 						}
 						kaMu.Unlock()
+					} else if h2cFirst && i == 0 {
+						var uc net.Conn
+						uc, err = net.DialTimeout("tcp", bind, time.Second)
+						if err == nil {
+							defer uc.Close()
+							uc.SetDeadline(time.Now().Add(6 * time.Second))
+							_, err = fmt.Fprintf(uc, "GET /slow?d=%d HTTP/1.1\r\nHost: localhost:3000\r\nConnection: Upgrade, HTTP2-Settings\r\nUpgrade: h2c\r\nHTTP2-Settings: AAMAAABkAAQCAAAAAAIAAAAA\r\n\r\n", rq.dur)
+							if err == nil {
+								resp, err = http.ReadResponse(bufio.NewReader(uc), nil)
+							}
+						}
 					} else {
 						resp, err = hc.Get(fmt.Sprintf("http://%s/slow?d=%d", bind, rq.dur))
 					}
